@@ -378,7 +378,7 @@ def groupby_concurrent(L):
 def check_c17(prop, tier, seed):
     v = Verdict(prop, tier, seed)
     _patch_asyncio()
-    cases, stats = generate(tier, ITER_TOOLS + AGG_TOOLS + ["any_iter", "await_each", "apply", "sync"], faults=False, prefixes=True)
+    cases, stats = generate(tier, ITER_TOOLS + AGG_TOOLS + ["any_iter", "await_each", "apply", "sync", "anext"], faults=False, prefixes=True)
     rnd = random.Random(seed)
     cap = 1500 if tier == "quick" else 60000
     chosen = cases if len(cases) <= cap else rnd.sample(cases, cap)
@@ -419,13 +419,13 @@ def check_c17(prop, tier, seed):
         v.violation(sig, d)
     # the concurrency engines exchange tokens with locks, getters and wrapped functions too
     sub = {}
-    from . import eng_cprop, eng_decor, eng_exitstack, eng_groupby, eng_handles, eng_lruconc, eng_tee  # noqa: PLC0415
+    from . import eng_cprop, eng_decor, eng_exitstack, eng_groupby, eng_handles, eng_lruconc, eng_simplecm, eng_tee  # noqa: PLC0415
 
     def only_foreign(sig, d):
         return ("C17/" + sig.split("/", 1)[1]) if ("foreign-suspension" in sig or "suspends-without" in sig) else None
 
     engines = [("tee", eng_tee, "C09"), ("lruconc", eng_lruconc, "C11"), ("cprop", eng_cprop, "C12"), ("decorator", eng_decor, "C15"),
-               ("groupby", eng_groupby, "C16")]
+               ("groupby", eng_groupby, "C16"), ("simplecm", eng_simplecm, "X01")]
     if tier == "thorough":   # these two have no suspension points of their own besides the tools they call
         engines += [("exitstack", eng_exitstack, "C14"), ("handles", eng_handles, "C08")]
     for name, eng, p_ in engines:
@@ -476,6 +476,8 @@ def c18_case(case):
             if tool == "chain" and case["cfg"]["par"]["outer"]:
                 fetched = sum(1 for e in o.log if e["ev"] == "pull" and e["src"] == 0 and e["res"] == "item")
                 bad = [i for i in bad if i == 0 or i <= fetched]
+            if tool == "anext":
+                bad = []     # anext only borrows its iterator: there is no library iterator whose close would release it
             if bad:
                 who = "unstarted-source" if all(o.states.get(i) == "new" for i in bad) else "source"
                 during = "+cancelled-inside-the-close-of-another-source" if (o.cancel_tag and o.cancel_tag[0] and o.cancel_tag[0][0] == "aclose") else ""
@@ -637,7 +639,7 @@ def scoped_cancel(L):
 
 def check_c18(prop, tier, seed):
     v = Verdict(prop, tier, seed)
-    cases, stats = generate(tier, ITER_TOOLS + AGG_TOOLS, faults=False, prefixes=True)
+    cases, stats = generate(tier, ITER_TOOLS + AGG_TOOLS + ["anext"], faults=False, prefixes=True)
     cases = [c for c in cases if c["nnext"] >= 1 and any(e["ev"] in ("pull", "call") for e in c["log"])]
     rnd = random.Random(seed)
     cap = 2500 if tier == "quick" else 40000
